@@ -219,7 +219,7 @@ for _n in (1, 2, 3):
 
 
 @symx("C07-render-leading-minwidth", timeout=900, kind="C+S", functions=F_T7,
-      bounds="ASCII-box tables, 1..3 columns x 1..3 rows x leading 0..3 x show_lines x table min_width in {none, 10, 30} x expand x "
+      bounds="ASCII-box tables, 1..3 columns x 1..3 rows x leading 0..3 x show_lines x show_edge x table min_width in {none, 10, 30} x expand x "
              "available width from the structural minimum to 40 (solver-enumerated, native): every line equally wide, never wider "
              "than available, exactly the available width when expanding; with leading the rows are separated by that many blank "
              "lines")
@@ -230,10 +230,11 @@ def c07_leading(e):
     show_lines = bool(e.mkbool("show_lines"))
     mw = [None, 10, 30][int(e.mk("min_width", 0, 2))]
     expand = bool(e.mkbool("expand"))
+    edge = bool(e.mkbool("show_edge"))
     w = int(e.mk("width", 1, 40))
     if w < (ncol + 1) + ncol * 6:       # room for the unwrapped cell text 'rXcY' plus padding: rows stay one line high
         return True
-    t = Table(box=box_mod.ASCII, leading=leading, show_lines=show_lines, min_width=mw, expand=expand)
+    t = Table(box=box_mod.ASCII, leading=leading, show_lines=show_lines, min_width=mw, expand=expand, show_edge=edge)
     for ci in range(ncol):
         t.add_column("H%d" % ci)
     for r in range(nrow):
@@ -245,8 +246,14 @@ def c07_leading(e):
     if mw is not None and ws[0] < min(mw, w):
         return False
     # rows appear in order, each on lines of its own, separated by `leading` blank rows (when no row lines are drawn)
-    body = [l for l in lines if "r" in l and "c" in l]
-    if [l.split("|")[1].strip() for l in body] != ["r%dc0" % r for r in range(nrow)]:
+    import re
+    body = [l for l in lines if re.search(r"r[0-9]c0", l)]
+    if [re.search(r"r[0-9]c0", l).group(0) for l in body] != ["r%dc0" % r for r in range(nrow)]:
+        return False
+    # column dividers line up on every line that has them
+    cols = [[i for i, ch in enumerate(l) if ch == "|"] for l in lines if "-" not in l and "+" not in l and "=" not in l]
+    cols = [c for c in cols if c]
+    if any(c != cols[0] for c in cols):
         return False
     if leading and not show_lines:
         idx = [lines.index(l) for l in body]
